@@ -155,6 +155,10 @@ Proof. split; vm_compute; reflexivity. Qed.
 Lemma oracle_kind9 : forallb (fun v => forallb (fun x => verdict50 [9; v; x] (run50 [9; v; x])) (nrange 256)) (nrange 256) = true.
 Proof. vm_compute. reflexivity. Qed.
 
+Lemma oracle_kind11 : forallb (fun x => verdict50 [11; x] (run50 [11; x])) (nrange 768) = true.
+Proof. vm_compute. reflexivity. Qed.
+Theorem oracle_code_readers : forall x, x < 768 -> verdict50 [11; x] (run50 [11; x]) = true.
+Proof. exact (forall_range _ _ oracle_kind11). Qed.
 
 Theorem oracle_all :
   (forall x, x < 65536 -> verdict50 [0; x] (run50 [0; x]) = true) /\
